@@ -151,7 +151,20 @@ fn run_case(idx: usize, line: &str, dir: &str, stage_bin: &str, out: &mut Out) {
     let out_kind = spec.get("out").to_string();
     let err_kind = spec.get("err").to_string();
     let open_rw = |p: &str| std::fs::OpenOptions::new().read(true).write(true).open(p).unwrap();
+    // ring=1: the pipeline's stdin is the read end and its stdout the write end of one and the same pipe (made by the caller,
+    // close-on-exec): the first command sees end-of-file only when every copy of the write end is gone, the parent's included
+    let ring: std::cell::RefCell<Option<(File, File)>> = std::cell::RefCell::new(None);
+    if spec.get("ring") == "1" {
+        let mut fds = [0 as libc::c_int; 2];
+        if unsafe { libc::pipe2(fds.as_mut_ptr(), libc::O_CLOEXEC) } == 0 {
+            *ring.borrow_mut() = Some(unsafe { (File::from_raw_fd(fds[0]), File::from_raw_fd(fds[1])) });
+        }
+    }
     let set_in = |p: Pipeline, input: &Vec<u8>| -> Pipeline {
+        if ring.borrow().is_some() {
+            let (r, w) = ring.borrow_mut().take().unwrap();
+            return p.stdin(r).stdout(w);
+        }
         match in_kind.as_str() {
             "P" => p.stdin(Redirection::Pipe),
             "F" => p.stdin(File::open(&inpath).unwrap()),
@@ -160,6 +173,9 @@ fn run_case(idx: usize, line: &str, dir: &str, stage_bin: &str, out: &mut Out) {
         }
     };
     let set_out = |p: Pipeline| -> Pipeline {
+        if spec.get("ring") == "1" {
+            return p; // already given together with stdin
+        }
         match out_kind.as_str() {
             "P" => p.stdout(Redirection::Pipe),
             "F" => p.stdout(open_rw(&filepath)),
@@ -236,6 +252,7 @@ fn run_case(idx: usize, line: &str, dir: &str, stage_bin: &str, out: &mut Out) {
     }))
     .ok();
     let term = spec.get("term").to_string();
+    let panic_drop = spec.get("panic") == "1";
     let rd = spec.get("read").to_string();
     let wr: usize = spec.get("write").parse().unwrap_or(0);
     let mut got_out: Option<Vec<u8>> = None;
@@ -302,15 +319,31 @@ fn run_case(idx: usize, line: &str, dir: &str, stage_bin: &str, out: &mut Out) {
             None => return Err("panic-while-building-the-pipeline".into()),
         };
         match (pv, term.as_str()) {
+            // panic=1: the handle is not dropped by falling out of scope but by a panic unwinding the caller's stack (and caught
+            // further up): it is dropped all the same, with the same obligations
             (Pv::One(e), "popen") => {
                 let p = e.popen().map_err(e2s)?;
                 at_user();
-                drop(p);
+                if panic_drop {
+                    let _ = std::panic::catch_unwind(std::panic::AssertUnwindSafe(move || {
+                        let _keep = p;
+                        std::panic::resume_unwind(Box::new(()));
+                    }));
+                } else {
+                    drop(p);
+                }
             }
             (Pv::Many(p), "popen") => {
                 let v = p.popen().map_err(e2s)?;
                 at_user();
-                drop(v);
+                if panic_drop {
+                    let _ = std::panic::catch_unwind(std::panic::AssertUnwindSafe(move || {
+                        let _keep = v;
+                        std::panic::resume_unwind(Box::new(()));
+                    }));
+                } else {
+                    drop(v);
+                }
             }
             (Pv::One(e), "join") => status = Some(e.join().map_err(e2s)?),
             (Pv::Many(p), "join") => status = Some(p.join().map_err(e2s)?),
